@@ -867,7 +867,12 @@ pub fn net_oracles_learn(ctx: &mut Ctx, spec: &NetSpec, net: &Network, job: &Lea
     };
     let job = match &walked { Some(j) => j, None => job };
     if is(ctx, &["C04"]) && job.val.is_none() && job.script.is_empty() {
-        if let Some((spec_loss, spec_params)) = learn_spec(spec, job) {
+        if let Some((spec_loss, spec_params, coupled)) = learn_spec(spec, job) {
+            if let Some(what) = coupled {
+                ctx.oracle(false, "block-step-not-coupled-optimizer-step",
+                    "a group's step on a feedback block is: every repetition takes the optimizer step on its own gradient sum, then every copy of a layer receives the configured accumulation (mean / sum) of the stepped copies",
+                    desc.clone(), what, "the accumulation of the stepped copies, computed from the gradient sums".into());
+            }
             let got = net_params(net);
             // the specification fixes which gradients are summed and when a step is taken, not the association of
             // the floating-point sums: compare within a rounding-sized tolerance (a wrong batch split, a mean for a
@@ -924,10 +929,53 @@ fn own_add(a: &mut Tensor, b: &Tensor) {
     }
 }
 
-pub fn learn_spec(spec: &NetSpec, job: &LearnJob) -> Option<(Vec<f32>, Vec<Vec<f32>>)> {
+/// what the coupled parameters of dense blocks must be after one plain-SGD group step (mean / add coupling), computed here
+/// from the parameters before the step and the gradient sums: `(top-level layer, unrolled position, tensor (0 weights, 1 bias), values)`
+fn coupled_expectation(spec: &NetSpec, twin: &Network, sum_w: &[Tensor], sum_b: &[Option<Tensor>]) -> Vec<(usize, usize, usize, Vec<f64>)> {
+    let mut out = Vec::new();
+    let lr = match &spec.opt { Some(crate::ops::scalar::OptSpec::Sgd(lr, None)) => *lr as f64, _ => return out };
+    let blocks: Vec<&Build> = spec.builds.iter().filter(|b| matches!(b, Build::Feedback { .. } | Build::Layer(_))).collect();
+    let nl = twin.layers.len();
+    if blocks.len() != nl || sum_w.len() != nl { return out; }
+    for (li, b) in blocks.iter().enumerate() {
+        let (inner, loops, acc) = match b { Build::Feedback { inner, loops, acc, .. } => (inner, *loops, acc.as_str()), _ => continue };
+        if !(acc == "mean" || acc == "add") || !inner.iter().all(|l| matches!(l, InnerSpec::Dense { .. })) { continue; }
+        let f = match &twin.layers[li] { Layer::Feedback(f) => f, _ => continue };
+        let len = inner.len();
+        let total = f.layers.len();
+        if total != len * loops { continue; }
+        let (gw, gb) = match (&sum_w[nl - 1 - li].data, sum_b[nl - 1 - li].as_ref().map(|t| &t.data)) {
+            (Data::Nested(a), Some(Data::NestedOptional(b))) if a.len() == total && b.len() == total => (a, b),
+            _ => continue,
+        };
+        for l in 0..len {
+            for which in 0..2usize {
+                let mut acc_v: Option<Vec<f64>> = None;
+                let mut ok = true;
+                for r in 0..loops {
+                    let pos = l + r * len;
+                    let ps = layer_params(&f.layers[pos]);
+                    if which >= ps.len() { ok = false; break; }
+                    let g: Vec<f32> = if which == 0 { flat_any(&gw[total - 1 - pos]) } else { match &gb[total - 1 - pos] { Some(t) => flat_any(t), None => { ok = false; break; } } };
+                    if g.len() != ps[which].len() { ok = false; break; }
+                    let stepped: Vec<f64> = ps[which].iter().zip(g.iter()).map(|(w, g)| *w as f64 - lr * *g as f64).collect();
+                    acc_v = Some(match acc_v { None => stepped, Some(a) => a.iter().zip(stepped.iter()).map(|(x, y)| x + y).collect() });
+                }
+                if let (true, Some(mut v)) = (ok, acc_v) {
+                    if acc == "mean" { for x in v.iter_mut() { *x /= loops as f64; } }
+                    for r in 0..loops { out.push((li, l + r * len, which, v.clone())); }
+                }
+            }
+        }
+    }
+    out
+}
+
+pub fn learn_spec(spec: &NetSpec, job: &LearnJob) -> Option<(Vec<f32>, Vec<Vec<f32>>, Option<String>)> {
     let mut twin = net::build(spec).ok()?;
     net::set_all_training(&mut twin, true);
-    let r = net::try_run(|| {
+    let mut coupling_fault: Option<String> = None;
+    let r = net::try_run(std::panic::AssertUnwindSafe(|| {
         let mut train_loss = Vec::new();
         for _phase in 0..job.phases.max(1) {
         train_loss.clear();
@@ -959,7 +1007,17 @@ pub fn learn_spec(spec: &NetSpec, job: &LearnJob) -> Option<(Vec<f32>, Vec<Vec<f
                 }
                 loss_epoch += losses.iter().sum::<f32>() / losses.len() as f32;
                 // exactly one optimizer step, step number = epoch index, on the summed gradients
+                let expect = coupled_expectation(spec, &twin, &sum_w, &sum_b);
                 twin.verif_update(epoch, sum_w, sum_b);
+                for (li, pos, which, v) in expect.iter() {
+                    if let Layer::Feedback(f) = &twin.layers[*li] {
+                        let ps = layer_params(&f.layers[*pos]);
+                        let bad = ps.get(*which).map_or(true, |got| got.len() != v.len() || got.iter().zip(v.iter()).any(|(a, b)| a.is_finite() && b.is_finite() && ((*a as f64) - b).abs() > 2e-5 * b.abs().max(1e-3)));
+                        if bad && coupling_fault.is_none() {
+                            coupling_fault = Some(format!("epoch {} group at sample {}: block layer {} position {} {}: {:?} after the step, expected {:?}", epoch, i, li, pos, if *which == 0 { "weights" } else { "bias" }, ps.get(*which), v));
+                        }
+                    }
+                }
                 groups += 1;
                 i = end;
             }
@@ -967,8 +1025,8 @@ pub fn learn_spec(spec: &NetSpec, job: &LearnJob) -> Option<(Vec<f32>, Vec<Vec<f
         }
         }
         train_loss
-    }).ok()?;
-    Some((r, net_params(&twin)))
+    })).ok()?;
+    Some((r, net_params(&twin), coupling_fault))
 }
 
 /// the parameters of a top-level layer as flat lists: one per weight matrix / filter, then the bias
@@ -1313,6 +1371,58 @@ pub fn direct_c05(ctx: &mut Ctx) {
                     "training, validation and batched prediction must give bit-identical results for every number of worker threads and every schedule",
                     format!("{} with {} samples, pool of {} threads, repetition {}", clip(&spec.token(), 600), xs.len(), t, rep),
                     "bit patterns differ from the single-thread run".into(), "bit-identical".into());
+            }
+        }
+    }
+    // repeated runs on ONE object from the same weights and data: batched prediction before and after a training run that
+    // leaves the weights bit for bit where they were (learning rate 1e-30) — a run that stops early, a run that uses its
+    // whole budget, a run without validation data; networks with dropout (top level and inside a block)
+    {
+        use crate::gen::arch::dense_spec;
+        let mut g = Gen::new(ctx);
+        let dcfg = ArchCfg { dropout: false, wscale: 0.5, ..ArchCfg::small() };
+        let mut specs = Vec::new();
+        for kind in 0..2 {
+            let mut d1 = dense_spec(&mut g, &dcfg, 4, 4, "tanh", true);
+            if let InnerSpec::Dense { dropout, .. } = &mut d1 { *dropout = Some(0.5); }
+            let head = dense_spec(&mut g, &dcfg, 4, 3, "linear", true);
+            let builds = if kind == 0 { vec![Build::Layer(d1), Build::Layer(head)] }
+                else { vec![Build::Feedback { inner: vec![d1], loops: 2, inskips: false, outskips: false, acc: "mean".into() }, Build::Layer(head)] };
+            specs.push(NetSpec { input: Shape::Single(4), builds, skipacc: "add".into(), loopacc: "mean".into(),
+                opt: Some(crate::ops::scalar::OptSpec::Sgd(1e-30, None)), obj: "mse".into(), clamp: None });
+        }
+        let n = 150;
+        let xs: Vec<Tensor> = (0..n).map(|_| input_for(&mut g, &Shape::Single(4))).collect();
+        let ts: Vec<Tensor> = (0..n).map(|_| target_for(&mut g, &Sh::Flat(3), "mse")).collect();
+        let rising: Vec<f32> = (1..=8).map(|i| i as f32).collect();
+        let falling: Vec<f32> = (1..=8).map(|i| 9.0 - i as f32).collect();
+        for spec in specs.iter() {
+            for (label, with_val, script) in [("stopped early", true, rising.clone()), ("whole budget", true, falling.clone()), ("no validation data", false, vec![])] {
+                for &t in &[1usize, 3] {
+                    let pool = match rayon::ThreadPoolBuilder::new().num_threads(t).build() { Ok(p) => p, Err(_) => continue };
+                    let r = pool.install(|| net::try_run(|| {
+                        let mut nw = net::build(spec).unwrap();
+                        let xr: Vec<&Tensor> = xs.iter().collect();
+                        let bits = |nw: &Network| -> Vec<u32> { nw.predict_batch(&xr).iter().flat_map(|p| flat_any(p)).map(|v| v.to_bits()).collect() };
+                        let wbits = |nw: &Network| -> Vec<u32> { net_params(nw).into_iter().flatten().map(|v| v.to_bits()).collect() };
+                        let (p0, w0) = (bits(&nw), wbits(&nw));
+                        let job = LearnJob { xs: xs[..10].to_vec(), ts: ts[..10].to_vec(), val: if with_val { Some((xs[..5].to_vec(), ts[..5].to_vec(), 2)) } else { None },
+                            batch: 4, epochs: 8, script: script.clone(), print: None, phases: 1 };
+                        let (tl, _, _) = net::run_learn(&mut nw, &job).unwrap();
+                        (p0 == bits(&nw), w0 == wbits(&nw), tl.len())
+                    }));
+                    evals += 1;
+                    match r {
+                        Ok((same_p, same_w, ran)) => {
+                            if same_w {
+                                ctx.oracle(same_p, "repeated-run-differs", "repeated runs from the same weights and data must be identical (batched prediction on one object, before and after a training run that left the weights unchanged)",
+                                    format!("{} predict_batch of 150, then learn ({}; {} of 8 epochs ran), then predict_batch again, pool of {} threads", clip(&spec.token(), 500), label, ran, t),
+                                    "bit patterns of the second run differ".into(), "bit-identical".into());
+                            }
+                        }
+                        Err(c) => ctx.oracle(false, "repeated-run-differs", "repeated runs from the same weights and data must be identical", format!("{} ({})", clip(&spec.token(), 500), label), format!("panic ({})", c), "bit-identical".into()),
+                    }
+                }
             }
         }
     }
